@@ -26,6 +26,21 @@ func init() {
 			Old: "\t\tif i < answered {\n\t\t\tswitch rr.Type {", New: "\t\tif i < int(header.ANCount) {\n\t\t\tswitch rr.Type {",
 			Why: "signed negative answers served unstripped to DO=0 clients on the byte path (seeded C06)"},
 	})
+	addMutants("C18", []Mutant{
+		{ID: "c18-unlink-before-rename", File: "middleware/blocklist/blocklist.go", Expect: "C18-R8",
+			Old: "\tif err := os.Rename(tmpName, path); err != nil {", New: "\t_ = os.Remove(path)\n\tif err := os.Rename(tmpName, path); err != nil {",
+			Why: "a window (or a failed rename) with no local file at all (seeded C18-w2A)"},
+	})
+	addMutants("C19", []Mutant{
+		{ID: "c19-clampscope-source-preempts-floor", File: "internal/ecs/policy.go", Expect: "C19-R6",
+			Old: "\tif source.IsValid() && bits > source.Bits() {\n\t\tbits = source.Bits()\n\t}\n", New: "\tif source.IsValid() && bits > source.Bits() {\n\t\tclamped, err := scope.Addr().Prefix(source.Bits())\n\t\tif err == nil {\n\t\t\treturn clamped\n\t\t}\n\t}\n",
+			Why: "SCOPE>SOURCE clamp skips the min_scope widening (seeded C19-w2B)"},
+	})
+	addMutants("C20", []Mutant{
+		{ID: "c20-negttl-minimum-always", File: "middleware/dns64/dns64.go", Expect: "C20-R7",
+			Old: "\t\t\tif soa.Minttl > 0 && soa.Minttl < ttl {", New: "\t\t\tif soa.Minttl > 0 {",
+			Why: "synthesised TTL outlives the NODATA it derives from (seeded C20-w2B)"},
+	})
 	addMutants("C14", []Mutant{
 		{ID: "c14-rsa-compare-right-aligned", File: "middleware/resolver/dnssec/rsa.go", Expect: "C14-R5",
 			Old: "\tpadded := make([]byte, size)\n\tcopy(padded[size-len(em):], em)\n\n\tif subtle.ConstantTimeCompare(padded, expected) != 1 {", New: "\tif subtle.ConstantTimeCompare(em, expected[size-len(em):]) != 1 {",
